@@ -56,6 +56,7 @@ TOTAL_FAMILY = {
     "BBSplusPoKSignature.from_bytes": "pok", "PoKSignature.from_bytes": "pok", "BBSplusZKPoK.from_bytes": "zkpok",
     "BBSplusCommitment.from_bytes": "commitment", "Commitment.from_bytes": "commitment", "BlindFactor.from_bytes": "blindfactor",
     "BBSplusPublicKey.from_coordinates": "pk_coord",
+    "Signature.update_signature": "update_signature", "create_generators": "update_signature", "Generators.create": "update_signature",
 }
 
 
